@@ -362,6 +362,7 @@ def c14(ctx, rep):
     _r(effects.rule_hash_order, ctx, rep)
     _r(effects.rule_context_writers, ctx, rep)
     _r(effects.rule_mutable_defaults, ctx, rep)
+    _r(effects.rule_renderers_pure, ctx, rep)
     _r(effects.rule_pure_lattice, ctx, rep)
     _r(detectors.rule_history, ctx, rep)
     _r(spelling.rule_fixpoint_order, ctx, rep)
